@@ -102,6 +102,9 @@ pub struct Program {
     pub stepped: bool,
     /// the parent cells are not listed in the library: only a `top` cell that instantiates them is
     pub top_only: bool,
+    /// the relatively placed instances are handed over in `Layout::places` (as `Placeable::Instance`, in listing
+    /// order) instead of `Layout::instances`
+    pub via_places: bool,
 }
 
 impl Program {
@@ -158,7 +161,7 @@ impl Program {
                 "inner_array": a.inner.as_ref().map(|(c, p)| json!({"count": c, "pitch_xy": [p.0, p.1]})), "innermost_array": a.inner2.as_ref().map(|(c, p)| json!({"count": c, "pitch_xy": [p.0, p.1]})), "reflect_horiz": a.rh, "reflect_vert": a.rv, "loc": [a.at.0, a.at.1]}))
             .collect();
         let cells: Vec<Value> = self.cells.iter().enumerate().map(|(i, c)| json!({"name": format!("c{i}"), "outline_rect": [c.0, c.1]})).collect();
-        json!({"cells": cells, "instances": insts, "arrays": arrays, "parent_listed_first": self.parent_first, "two_parent_cells_second_moved_by_31_-17_and_with_an_abstract_view": self.two_parents, "stepped_outlines_same_bounding_box": self.stepped, "parents_not_listed_only_a_top_cell_instantiating_them": self.top_only})
+        json!({"cells": cells, "instances": insts, "arrays": arrays, "parent_listed_first": self.parent_first, "two_parent_cells_second_moved_by_31_-17_and_with_an_abstract_view": self.two_parents, "stepped_outlines_same_bounding_box": self.stepped, "parents_not_listed_only_a_top_cell_instantiating_them": self.top_only, "relative_instances_handed_over_in_Layout_places": self.via_places})
     }
 }
 
@@ -218,11 +221,12 @@ pub fn empty_stack() -> Result<ValidStack, String> {
 }
 
 fn sep_xy(p: (Option<i64>, Option<i64>)) -> Separation {
-    Separation {
-        x: p.0.map(|k| SepBy::UnitSpeced(UnitSpeced::PrimPitches(PrimPitches::x(k as isize)))),
-        y: p.1.map(|k| SepBy::UnitSpeced(UnitSpeced::PrimPitches(PrimPitches::y(k as isize)))),
-        z: None,
-    }
+    // through the public constructor
+    Separation::new(
+        p.0.map(|k| SepBy::UnitSpeced(UnitSpeced::PrimPitches(PrimPitches::x(k as isize)))),
+        p.1.map(|k| SepBy::UnitSpeced(UnitSpeced::PrimPitches(PrimPitches::y(k as isize)))),
+        None,
+    )
 }
 
 /// Build the library for `p` with instances listed in `listing` order, run `Placer::place`, read back.
@@ -297,7 +301,11 @@ pub fn run_program(p: &Program, listing: &[usize]) -> Result<Vec<ParentSeen>, St
             ptrs[i].write().map_err(|_| "setup: lock".to_string())?.loc = loc;
         }
         for &k in listing {
-            parent.instances.push(ptrs[k].clone());
+            if p.via_places && matches!(p.insts[k].loc, Loc::Rel { .. }) && !all_abs {
+                parent.places.push(Placeable::Instance(ptrs[k].clone()));
+            } else {
+                parent.instances.push(ptrs[k].clone());
+            }
         }
         for (i, a) in p.arrays.iter().enumerate() {
             let unit = match &a.inner {
@@ -505,6 +513,7 @@ fn self_check() -> &'static Result<(), String> {
             arrays: vec![],
             stepped: false,
             top_only: false,
+            via_places: false,
             parent_first: false,
             two_parents: false,
         };
@@ -836,6 +845,7 @@ impl CaseDriver for Pair {
         Program {
             stepped,
             top_only: false,
+            via_places: false,
             cells: PAIR_CELLS.to_vec(),
             insts: vec![
                 InstDef { cell: rs, rh: rr.0, rv: rr.1, loc: Loc::Abs(rl.0, rl.1) },
@@ -919,7 +929,8 @@ impl CaseDriver for Graph {
         let two_parents = c.cost(2, "two-parents") == 1;
         // the parents reachable only through a `top` cell (costed)
         let top_only = c.cost(2, "parents-unlisted-below-a-top-cell") == 1;
-        Program { cells: GRAPH_CELLS.to_vec(), insts, arrays: vec![], parent_first: false, two_parents, stepped, top_only }
+        let via_places = c.cost(2, "relative-instances-handed-over-as-placeables") == 1;
+        Program { cells: GRAPH_CELLS.to_vec(), insts, arrays: vec![], parent_first: false, two_parents, stepped, top_only, via_places }
     }
     fn check(&self, p: &Program, key: &str, cx: &mut Cx) {
         let nrel = p.insts.iter().filter(|d| matches!(d.loc, Loc::Rel { .. })).count();
@@ -1019,7 +1030,7 @@ impl CaseDriver for Arr {
         } else {
             None
         };
-        Program { cells: GRAPH_CELLS.to_vec(), insts, arrays: vec![ArrayDef { cell, count, pitch, inner, inner2, rh: r.0, rv: r.1, at }], parent_first: false, two_parents, stepped, top_only: false }
+        Program { cells: GRAPH_CELLS.to_vec(), insts, arrays: vec![ArrayDef { cell, count, pitch, inner, inner2, rh: r.0, rv: r.1, at }], parent_first: false, two_parents, stepped, top_only: false, via_places: false }
     }
     fn check(&self, p: &Program, key: &str, cx: &mut Cx) {
         let a = &p.arrays[0];
@@ -1095,7 +1106,7 @@ impl CaseDriver for Long {
         if shape == 3 {
             insts[0].loc = Loc::Rel { to: n - 1, side: S::Right, align: S::Bottom, sep: Sep::None };
         }
-        (shape, Program { cells: GRAPH_CELLS.to_vec(), insts, arrays: vec![], parent_first: false, two_parents: false, stepped: false, top_only: false })
+        (shape, Program { cells: GRAPH_CELLS.to_vec(), insts, arrays: vec![], parent_first: false, two_parents: false, stepped: false, top_only: false, via_places: false })
     }
     fn check(&self, case: &(usize, Program), key: &str, cx: &mut Cx) {
         let p = &case.1;
